@@ -264,6 +264,10 @@ class LinesTransportMixin:
         tags: list[str] | None = None,
     ) -> bytes:
         data = await asyncio.wait_for(self.get_reader().readline(), timeout)
+        if not data.endswith(b"\n"):
+            # End of stream; a line without its newline is the rest of a message the peer
+            # did not finish and must not be delivered as a message.
+            data = b""
         d = data.decode().strip()
 
         t = tags + ["read"] if tags is not None else ["read"]
